@@ -34,6 +34,7 @@ type SolverStats struct {
 	Unsat    int
 	Unknown  int
 	Errors   int
+	Retries  int
 	Time     time.Duration
 	MaxQuery time.Duration
 }
@@ -52,6 +53,7 @@ type Solver struct {
 	log      io.Writer
 	lastErr  string
 	nqueries int
+	noRetry  bool
 }
 
 func NewSolver(ctx *Ctx, bin string, timeoutMs int) (*Solver, error) {
@@ -169,8 +171,70 @@ func (s *Solver) readLine() (string, error) {
 	return strings.TrimSpace(l), err
 }
 
-// Check decides satisfiability of the conjunction of lits.
+// Check decides satisfiability of the conjunction of lits. An inconclusive
+// answer is retried in a fresh solver process (no accumulated state) with four
+// times the time limit, and after that with the other z3 build, so that a
+// verdict does not depend on what this process happened to solve before.
 func (s *Solver) Check(lits []*Term) Verdict {
+	v := s.checkOnce(lits)
+	if v != Unknown || s.noRetry {
+		return v
+	}
+	tries := []struct {
+		bin string
+		ms  int
+	}{{s.bin, s.timeout * 4}}
+	if alt := altSolver(s.bin); alt != "" {
+		tries = append(tries, struct {
+			bin string
+			ms  int
+		}{alt, s.timeout * 4})
+	}
+	for _, t := range tries {
+		f, err := NewSolver(s.ctx, t.bin, t.ms)
+		if err != nil {
+			continue
+		}
+		f.noRetry = true
+		f.log = s.log
+		v = f.checkOnce(lits)
+		s.Stats.Retries++
+		s.Stats.Time += f.Stats.Time
+		if f.Stats.MaxQuery > s.Stats.MaxQuery {
+			s.Stats.MaxQuery = f.Stats.MaxQuery
+		}
+		if v == Unknown {
+			f.Close()
+			continue
+		}
+		// adopt the fresh process so that a model can be read from it
+		s.Stats.Unknown--
+		if v == Sat {
+			s.Stats.Sat++
+		} else {
+			s.Stats.Unsat++
+		}
+		s.Close()
+		s.cmd, s.in, s.out, s.emitted, s.ufDone, s.bin, s.args = f.cmd, f.in, f.out, f.emitted, f.ufDone, f.bin, f.args
+		if !strings.Contains(s.bin, "cvc5") && v == Unsat {
+			s.send(fmt.Sprintf("(set-option :timeout %d)", s.timeout))
+		}
+		return v
+	}
+	return Unknown
+}
+
+func altSolver(bin string) string {
+	switch {
+	case strings.HasSuffix(bin, "z3-new"):
+		return "z3"
+	case strings.HasSuffix(bin, "z3"):
+		return "z3-new"
+	}
+	return ""
+}
+
+func (s *Solver) checkOnce(lits []*Term) Verdict {
 	var names []string
 	for _, l := range lits {
 		if l.IsTrue() {
